@@ -39,6 +39,34 @@ def run(tier):
                          dict(op=n, primitives=sorted(set(bad))))
         else:
             rep.ok(key, "R08.trivial", None)
+    # 0-dimensional arrays (one element, their own class specialisation): the default / sizing constructors with a trivial element
+    import os
+    from vlib import ir0, absint, owning
+    src = os.path.join(wd, "zero_d.cpp")
+    with open(src, "w") as fh:
+        fh.write("#define TRACKED_TRIVIAL 1\n" + owning.TYPES + """
+using A = ObsAlloc<Tracked>; using Arr0 = multi::array<Tracked, 0, A>; using SArr0 = multi::static_array<Tracked, 0, A>;
+extern "C" void z_ctor_default(void* m) { new(m) Arr0(); }
+extern "C" void z_sctor_default(void* m) { new(m) SArr0(); }
+extern "C" void z_ctor_elem(void* m, Tracked const& e) { new(m) Arr0(e); }
+""")
+    try:
+        zmod = ir0.parse(ir0.emit_o0(src, src[:-4] + ".ll", defines=("-DNDEBUG",)))      # (the 0-D constructors do not compile with assertions enabled)
+        ir0.demangle_all(zmod)
+        zi = absint.Interp(zmod)
+        rep.units.add("zero_d.cpp")
+        ctl = [e for oc, rv, p_ in zi.run("z_ctor_elem") for e in p_.events if e[0] == "construct"]
+        if not ctl:
+            rep.break_("R08.trivial (0-D): positive control: the element constructor of a 0-D array shows no element-construction event")
+        for fn, what in (("z_ctor_default", "new(m) array<T,0>();"), ("z_sctor_default", "new(m) static_array<T,0>();")):
+            key = "R08.trivial@%s" % fn[2:] + "(D=0)"
+            bad = sorted({str(e[1])[:80] for oc, rv, p_ in zi.run(fn) for e in p_.events if e[0] == "construct"})
+            if bad:
+                rep.violated(key, "R08.trivial", "%s with a trivially default constructible element runs an element-construction primitive: %s" % (what, bad), dict(primitives=bad))
+            else:
+                rep.ok(key, "R08.trivial", None)
+    except (common.AnalysisBroken, absint.Limit) as e:
+        rep.break_("R08.trivial (0-D): %s" % str(e)[:300])
     rep.need_instances("A.operations analysed", total_ops, 62 * len(dims))
     rep.need_instances("R08.inv traces", sum(1 for o in rep.obligations if o["family"] == "R08.inv"), 150 * len(dims))
     rep.explanation = ("Abstract interpretation (term domain, path-sensitive, exception edges followed) of the unoptimised LLVM IR of driver functions that "
